@@ -882,9 +882,16 @@ func runC06(r *vk.Run) {
 					broken++
 				}
 			}
-			// make every line distinct so that results can be told apart by line as well
 			lines = append(lines, line)
+			if rng.Chance(1, 4) && len(lines) < n {
+				// the same line again, directly after itself (a retry loop, two replicas): it is parsed and
+				// flagged like its first occurrence
+				lines = append(lines, line)
+				i++
+				c.Count("sequence_adjacent_repeats", 1)
+			}
 		}
+		n = len(lines)
 		type one struct {
 			labels map[string]string
 			line   string
@@ -1087,6 +1094,23 @@ func runC06(r *vk.Run) {
 			if !check(l, "| json a", true) {
 				return
 			}
+		}
+		// the path-expression forms read the document too: text that is not JSON at all is flagged all the same
+		// (a JSON value that is not an object is addressable by a path and therefore not asserted here)
+		for _, l := range []string{"tru", "{]", `{"a":}`, `{"a" 1}`, `{"a":1,}`, "plain text", `{"a":{"b":`, `{"b":{"c":1},"a":`} {
+			if !check(l, `| json x="a"`, true) {
+				return
+			}
+			if !check(l, `| json a, y="b.c"`, true) {
+				return
+			}
+		}
+		for cut := 1; cut < len(full); cut++ {
+			// a path that is not in the document makes the stage read all of it
+			if !check(full[:cut], `| json zz="no.such[0].path"`, true) {
+				return
+			}
+			c.Count("cut_points_path_form", 1)
 		}
 		for _, l := range []string{`a="unterminated`, `a=1 b="x`, `"k"=v`, `a=1 =v`} {
 			if !check(l, "| logfmt", true) {
